@@ -24,6 +24,31 @@ UNIT_FAMILIES = {
 }
 
 
+def nan_guard_rule(prog, rep, f, rule, entry):
+    """NaN coordinates (the dask path pads the coordinate grids with a NaN halo) must not be rejected by the range guards of
+    a distance function: the guards are folded with Python's own comparison semantics (`not (-180 <= nan <= 180)` is True,
+    `nan > 180 or nan < -180` is not)"""
+    from ..consteval import CannotFold, Folder
+    rejected = []
+    for p in f.params[:4]:
+        env_ = {q: 0.0 for q in f.params[:4]}
+        env_[p] = float('nan')
+        d_ = f.defaults()
+        try:
+            fo = Folder(prog, f.module)
+            for q, dn in d_.items():
+                env_.setdefault(q, fo.ev(dn, {}))
+            fo.block(f.node.body, env_)
+        except CannotFold as ex:
+            if str(ex) == 'raises':
+                rejected.append(p)
+        except Exception:       # noqa - a return is signalled by an exception of the folder
+            pass
+    rep.add(rule, f, entry, 'NaN coordinates pass the range guards of %s' % f.name, f.node.lineno, not rejected,
+            'cells of the NaN halo that the dask path adds around the coordinate grids reach this function: a guard written '
+            'as `not (lo <= v <= hi)` raises for NaN although `v > hi or v < lo` does not; rejected for NaN in %s' % rejected)
+
+
 def check_metrics(prog, rep):
     m = prog.module('proximity')
     entry = 'metrics'
@@ -80,6 +105,7 @@ def check_metrics(prog, rep):
                 rep.add('V2', f, entry, 'range guard for %s' % p, f.node.lineno, ok,
                         'longitudes outside [-180, 180] and latitudes outside [-90, 90] must be rejected '
                         '(%s: raise iff |%s| > %d); %s' % (p, p, lim, why))
+            nan_guard_rule(prog, rep, f, 'V2', entry)
             rep.add('V2', f, entry, 'one result expression', f.node.lineno, len(k.returns) == 1,
                     'the distance is one formula (checked by V1): a second return path would bypass it')
     # dispatch
